@@ -285,7 +285,7 @@ def check_events(ctx):
         cfg = cfg_of(meth.node)
         for n in cfg.real_nodes():
             for c in n.calls:
-                if call_name(c) == "self.trigger_collection_events" and "EQUIPMENT_OFFLINE" in norm(c):
+                if call_name(c) == "self.trigger_collection_events" and any("EQUIPMENT_OFFLINE" in rules.expand(meth.node, a) for a in c.args):
                     prev = [x for x in cfg.real_nodes() if any(k.startswith("self._control_state.") and k.split(".")[-1] != "current" for k in x.call_names()) and cfg.dominates(x, n)]
                     after.add(prev[-1].call_names()[-1].split(".")[-1] if prev else f"<no transition, in {name}>")
     want = set(ref["equipment_offline_event_after"].values())
